@@ -333,6 +333,9 @@ func iff(a, b bool) bool { return a == b }
 func forall(lo, hi int, f func(i int) bool) bool { panic("spec") }
 func exists(lo, hi int, f func(i int) bool) bool { panic("spec") }
 func held(m interface{}) bool { panic("spec") }
+// nolocks(): no mutex is held; onlyheld(m): m is held and no other mutex is
+func nolocks() bool { panic("spec") }
+func onlyheld(m interface{}) bool { panic("spec") }
 // ghost(name, obj): ghost integer attribute "name" of object obj (a heap class "g:<name>")
 func ghost(name string, obj interface{}) int { panic("spec") }
 func LE16(b []byte, i int) uint16 { return uint16(b[i]) | uint16(b[i+1])<<8 }
